@@ -16,3 +16,9 @@ func VerifLoadUpstreams(file, cluster, scheme string, vars map[string]string, ad
 	err := SetUpstreamConfigs(uc, CookieConfig{Name: cookieName}, &ServerConfig{})
 	return uc.upstreamConfigs, err
 }
+
+// VerifSetUpstreams is SetUpstreamConfigs with explicit template variables instead of the process environment.
+func VerifSetUpstreams(c *Configuration, vars map[string]string) error {
+	c.UpstreamConfigs.testTemplateVars = vars
+	return SetUpstreamConfigs(&c.UpstreamConfigs, c.SessionConfig.CookieConfig, &c.ServerConfig)
+}
